@@ -69,11 +69,10 @@ theorem fracParse_parts (c : Cfg) (t i a b : Str) (parts : List Str) (xi xn xd :
       | cons r2 r3 =>
         simp [fracParse, hs, hi, hn, hd, hneg, hq, ofOpt, bind, Except.bind, pure, Except.pure]
 
-theorem douParse_point (c : Cfg) (t a b : Str) (rest : List Str) (ng : Bool) (i f v : PyN)
+theorem douParse_point (c : Cfg) (t a b : Str) (rest : List Str) (ng : Bool) (i v : PyN)
     (hr : found c c.doubleAndRound t = .ok false)
     (hs : split c c.point (replaceUnit c t) = .ok (a :: b :: rest)) (ha : a ≠ [])
-    (hneg : found c c.negSign a = .ok ng) (hi : getIntValue c a = .ok i) (hf : getPointValue c b = .ok f)
-    (hv : (if ng then PyN.sub i f else PyN.add i f) = .ok v) :
+    (hneg : found c c.negSign a = .ok ng) (hi : getIntValue c a = .ok i) (hv : addPoint c i b ng = .ok v) :
     douParse c t = .ok (.n v, fmt c (.n v)) := by
   cases a with
   | nil => exact absurd rfl ha
@@ -106,6 +105,79 @@ theorem perParse_missing (c : Cfg) (h : c.percentageNum = none) (data t : Str) (
   cases hv : perValue c data t with
   | error e => simp [bind, Except.bind]
   | ok p => simp [bind, Except.bind, search, h]
+
+/-! ### integer part ± digits after the point: the two variants -/
+
+/-- as first found: `int_value ± get_point_value(text)` -/
+theorem addPoint_first_found (c : Cfg) (h : c.pointFix = false) (i : PyN) (text : Str) (neg : Bool) :
+    addPoint c i text neg = (getPointValue c text).bind fun f => if neg then PyN.sub i f else PyN.add i f := by
+  simp [addPoint, h, bind, Except.bind]
+
+/-- `Decimal(w) + Decimal('0.' + digits)` is exact when the written number has at most `p` significant digits -/
+theorem add_int_point (p w V L : Nat) (h : ndigits (w * 10 ^ L + V) ≤ p) :
+    Dec.add p (Dec.ofInt (w : Int)) ⟨false, V, -(L : Int)⟩ = ⟨false, w * 10 ^ L + V, -(L : Int)⟩ := by
+  have e1 : min (0 : Int) (-(L : Int)) = -(L : Int) := by omega
+  have e2 : ((0 : Int) - -(L : Int)).toNat = L := by omega
+  have e3 : (-(L : Int) - -(L : Int)).toNat = 0 := by omega
+  have e4 : decide ((w : Int) < 0) = false := by simp
+  simp only [Dec.add, Dec.ofInt, e4, Int.natAbs_natCast, e1, e2, e3, Nat.pow_zero, Nat.mul_one, beq_self_eq_true,
+    if_true, Bool.false_and]
+  unfold fix
+  simp only
+  split
+  · rfl
+  · simp [h]
+
+/-- the characters `text` are keys of `zero_to_nine_map` with the plain digits `ns` as values -/
+def Reads (c : Cfg) : Str → List Nat → Prop
+  | [], [] => True
+  | ch :: t, n :: ns => lookupS c.zeroToNine [ch] = some (.int (n : Int)) ∧ n ≤ 9 ∧ Reads c t ns
+  | _, _ => False
+
+theorem reads_mapM (c : Cfg) : ∀ (text : Str) (ns : List Nat), Reads c text ns →
+    text.mapM (fun ch => ofOpt Err.keyError (lookupS c.zeroToNine [ch])) = .ok (ns.map fun (n : Nat) => PyN.int (n : Int))
+  | [], [], _ => rfl
+  | ch :: t, n :: ns, h => by
+    obtain ⟨h1, _, h3⟩ := h
+    have ih := reads_mapM c t ns h3
+    rw [List.mapM_cons, ih, h1]; rfl
+  | [], _ :: _, h => absurd h (by simp [Reads])
+  | _ :: _, [], h => absurd h (by simp [Reads])
+
+theorem reads_plain (c : Cfg) : ∀ (text : Str) (ns : List Nat), Reads c text ns →
+    plainDigits (ns.map fun (n : Nat) => PyN.int (n : Int)) = some ns
+  | [], [], _ => rfl
+  | _ :: t, n :: ns, h => by
+    obtain ⟨_, h2, h3⟩ := h
+    have ih := reads_plain c t ns h3
+    have : (0 : Int) ≤ (n : Int) ∧ (n : Int) ≤ 9 := by omega
+    simp [plainDigits, ih, this]
+  | [], _ :: _, h => absurd h (by simp [Reads])
+  | _ :: _, [], h => absurd h (by simp [Reads])
+
+theorem reads_length (c : Cfg) : ∀ (text : Str) (ns : List Nat), Reads c text ns → ns.length = text.length
+  | [], [], _ => rfl
+  | _ :: t, _ :: ns, h => by simp [reads_length c t ns h.2.2]
+  | [], _ :: _, h => absurd h (by simp [Reads])
+  | _ :: _, [], h => absurd h (by simp [Reads])
+
+/-- repaired variant, positive integer part `w`, digits `ns` after the point, at most `c.p` significant digits in all:
+the value is the binary64 nearest to the written decimal `w.ns` (one correctly rounded conversion of the exact decimal) -/
+theorem addPoint_repaired (c : Cfg) (hfx : c.pointFix = true) (w : Nat) (text : Str) (ns : List Nat)
+    (hr : Reads c text ns) (hne : text ≠ [])
+    (hd : ndigits (w * 10 ^ ns.length + digitsVal ns) ≤ c.p) :
+    addPoint c (.int (w : Int)) text false =
+      (ofOpt Err.overflow (F64.ofDec ⟨false, w * 10 ^ ns.length + digitsVal ns, -(ns.length : Int)⟩)).map PyN.flt := by
+  have hl := reads_length c text ns hr
+  have hne' : (ns.map fun (n : Nat) => PyN.int (n : Int)).isEmpty = false := by
+    cases ns with
+    | nil => cases text with
+      | nil => exact absurd rfl hne
+      | cons a b => simp at hl
+    | cons a b => rfl
+  simp only [addPoint, hfx, reads_mapM c text ns hr, reads_plain c text ns hr, hne', PyN.integral, pointDec,
+    add_int_point c.p w (digitsVal ns) ns.length hd, bind, Except.bind, Bool.not_true, Bool.false_eq_true, if_false]
+  cases F64.ofDec ⟨false, w * 10 ^ ns.length + digitsVal ns, -(ns.length : Int)⟩ <;> rfl
 
 theorem getPointValue_nil (c : Cfg) : getPointValue c [] = .ok (.int 0) := rfl
 
